@@ -287,7 +287,7 @@ def check(run: Run, lean: dict) -> int:
     for xml, ops in corpus():
         run_one(run, "corpus", xml, ops, 0, ok, reqs)
     for _ in range(n):
-        run_one(run, "generated", run.rng.choice(E.DOCS), None, run.rng.randint(5, 15), ok, reqs)
+        run_one(run, "generated", E.pick_doc(run.rng), None, run.rng.randint(5, 15), ok, reqs)
     compare_with_model(run, reqs)
     run.extra["nodes_checked"] = sum(len(rows) for _, _, rows in reqs)
     return run.finish(lean, LEVEL, ASSUME, search=search)
@@ -301,7 +301,7 @@ def search(run: Run):
         if probe.violations:
             return [probe.violations[0]]
     for _ in range(1500):
-        run_one(probe, "search", probe.rng.choice(E.DOCS), None, probe.rng.randint(5, 18), False, [])
+        run_one(probe, "search", E.pick_doc(probe.rng), None, probe.rng.randint(5, 18), False, [])
         if probe.violations:
             return [probe.violations[0]]
     return None
